@@ -207,6 +207,18 @@ func runC19(res *lib.Result, tier string, seed int64, args []string) error {
 			files["deep.lua"] = fmt.Sprintf("local function setupD%d(list)\n  local function scanD%d()\n    for i = 1, #list do list[i] = i end\n    for i = #list, 1, -1 do list[i] = nil end\n  end\n  local function buildD%d()\n    local function hiddenD%d() return 1 end\n    return hiddenD%d\n  end\n  return scanD%d, buildD%d\nend\nreturn setupD%d\n", wi, wi, wi, wi, wi, wi, wi, wi)
 			blockFns = append(blockFns, [3]string{"deep.lua", fmt.Sprintf("hiddenD%d", wi), fmt.Sprintf("hiddenD%d", wi)})
 		}
+		if !many {
+			// functions inside blocks that declare no local of their own (the scope walk must not prune such scopes),
+			// and a table declared and extended on one line
+			files["nest.lua"] = fmt.Sprintf("local function setupN%d()\n  if DEBUGN then\n    local function traceN%d() end\n    local helpersN%d = {}\n    function helpersN%d.dumpN%d() end\n  end\nend\ndo do local function deepN%d() end end end\nSL%d = {} function SL%d.sf%d() end\nSM%d = { k = 1 } function SM%d:sm%d(a) end function SM%d.sn%d() end\nprint(setupN%d)\n",
+				wi, wi, wi, wi, wi, wi, wi, wi, wi, wi, wi, wi, wi, wi, wi)
+			blockFns = append(blockFns, [3]string{"nest.lua", fmt.Sprintf("traceN%d", wi), fmt.Sprintf("traceN%d", wi)},
+				[3]string{"nest.lua", fmt.Sprintf("helpersN%d.dumpN%d", wi, wi), fmt.Sprintf("dumpN%d", wi)},
+				[3]string{"nest.lua", fmt.Sprintf("deepN%d", wi), fmt.Sprintf("deepN%d", wi)},
+				[3]string{"nest.lua", fmt.Sprintf("SL%d.sf%d", wi, wi), fmt.Sprintf("sf%d", wi)},
+				[3]string{"nest.lua", fmt.Sprintf("SM%d.sm%d", wi, wi), fmt.Sprintf("sm%d", wi)},
+				[3]string{"nest.lua", fmt.Sprintf("SM%d.sn%d", wi, wi), fmt.Sprintf("sn%d", wi)})
+		}
 		if !many && nf >= 2 && nf <= 3 {
 			// a global table declared in one file gets a function member in another file
 			files["f0.lua"] += fmt.Sprintf("GTw%d = {}\nfunction GTw%d.own%d() end\n", wi, wi, wi)
@@ -337,7 +349,7 @@ func runC19(res *lib.Result, tier string, seed int64, args []string) error {
 		}
 		// functions declared on tables that are local to a nested block / function body: findable by name
 		for k, bf := range blockFns {
-			if k%3 != 0 && !strings.HasPrefix(bf[1], "hidden") {
+			if k%3 != 0 && !strings.HasPrefix(bf[1], "hidden") && bf[0] != "nest.lua" {
 				continue
 			}
 			ws, err := sess.WorkspaceSymbol(bf[1])
